@@ -1,7 +1,9 @@
 package main
 
 import (
+	"encoding/hex"
 	"fmt"
+	"github.com/nalgeon/redka"
 	"os"
 	"path/filepath"
 	"sort"
@@ -29,6 +31,7 @@ func (o ilOutcome) String() string {
 type ilX struct {
 	name string
 	op   *hx.Op // nil = reader of the whole content
+	pre  *hx.Op // when set: X is ONE transaction that first runs pre (an observation), then op
 }
 
 func ilEligible(st *hx.Step) bool {
@@ -71,6 +74,18 @@ func ilRunX(x *hx.Exec, xx ilX) string {
 		}
 		return c.Text
 	}
+	if xx.pre != nil {
+		var r1, r2 hx.Res
+		err := x.DB.Update(func(tx *redka.Tx) error {
+			r1 = xx.pre.Run(hxTx(tx), x, xx.pre)
+			r2 = xx.op.Run(hxTx(tx), x, xx.op)
+			return nil
+		})
+		if err != nil {
+			return "err " + err.Error()
+		}
+		return r1.String() + " ; " + r2.String()
+	}
 	return runOpDB(x, xx.op)
 }
 
@@ -99,7 +114,7 @@ func runC08CommandInterleave() {
 		step(cmd(true, "SADD", "e", "x")), step(cmd(true, "SADD", "e2", "y")), step(cmd(true, "ZADD", "z", "1", "x")),
 		step(cmd(true, "RPUSH", "l", "a")), step(cmd(true, "RPUSH", "l", "b")), step(cmd(true, "RPUSH", "l", "c")),
 	}
-	X := func(name string, write bool, args ...string) ilX { return ilX{name, cmd(write, args...)} }
+	X := func(name string, write bool, args ...string) ilX { return ilX{name: name, op: cmd(write, args...)} }
 	type cc struct {
 		w  *hx.Op
 		xs []ilX
@@ -122,6 +137,11 @@ func runC08CommandInterleave() {
 		{cmd(true, "RPOPLPUSH", "l", "l2"), []ilX{X("reader", false, "LLEN", "l"), X("reader", false, "LRANGE", "l2", "0", "-1")}},
 		{cmd(true, "LINSERT", "l", "BEFORE", "b", "n"), []ilX{X("reader", false, "LRANGE", "l", "0", "-1"), X("rival", true, "LREM", "l", "0", "b")}},
 		{cmd(true, "SET", "k1", "v", "EX", "1000"), []ilX{X("rival", true, "SET", "k1", "w"), X("rival", true, "DEL", "k1")}},
+		{cmd(true, "SETNX", "lock", "v1"), []ilX{X("rival", true, "SETNX", "lock", "v2"), X("rival", true, "SET", "lock", "w", "NX"), X("rival", true, "SET", "lock", "w")}},
+		{cmd(true, "SET", "lock", "v1", "NX"), []ilX{X("rival", true, "SETNX", "lock", "v2"), X("rival", true, "SET", "lock", "w", "XX")}},
+		{cmd(true, "HSETNX", "h", "fnew", "v1"), []ilX{X("rival", true, "HSETNX", "h", "fnew", "v2"), X("rival", true, "HSET", "h", "fnew", "w")}},
+		{cmd(true, "RENAMENX", "k1", "k9"), []ilX{X("rival", true, "SET", "k9", "w"), X("rival", true, "RENAMENX", "k2", "k9")}},
+		{cmd(true, "SDIFFSTORE", "d", "e", "e2"), []ilX{X("rival", true, "SADD", "e2", "x"), X("rival", true, "SREM", "e", "x")}},
 		{cmd(true, "GETSET", "k1", "n"), []ilX{X("rival", true, "GETSET", "k1", "m"), X("rival", true, "SETNX", "k1", "q")}},
 		{cmd(true, "INCRBYFLOAT", "z9", "1.5"), []ilX{X("rival", true, "INCRBYFLOAT", "z9", "2.5")}},
 		{cmd(true, "HINCRBY", "h", "f1", "5"), []ilX{X("rival", true, "HINCRBY", "h", "f1", "7"), X("rival", true, "HSET", "h", "f1", "100")}},
@@ -308,7 +328,7 @@ func writersOf(pool *casePool, r *hx.Op) []ilX {
 		for _, op := range pool.Ops[name] {
 			f := strings.Fields(op.Tok)
 			if op.Write && len(f) >= 2 && f[1] == rf[1] && len(op.RelTTL) == 0 {
-				out = append(out, ilX{"writer-of-the-key:" + name, op})
+				out = append(out, ilX{name: "writer-of-the-key:" + name, op: op})
 				break
 			}
 		}
@@ -317,6 +337,46 @@ func writersOf(pool *casePool, r *hx.Op) []ilX {
 		}
 	}
 	return out
+}
+
+// runC08StoreInterleave: stores with a destination that is none of the sources, on a missing and on
+// an existing destination, against the transactional observer (and the usual second callers).
+func runC08StoreInterleave() {
+	dir, err := os.MkdirTemp("", "sysrun-ils-")
+	if err != nil {
+		fail("harness", err.Error(), nil)
+		return
+	}
+	defer os.RemoveAll(dir)
+	step := func(op *hx.Op) *hx.Step { return &hx.Step{Ops: []*hx.Op{op}} }
+	setPrefix := []*hx.Step{step(hx.EAdd("sa", hx.VStr("1"), hx.VStr("2"), hx.VStr("3"))), step(hx.EAdd("sb", hx.VStr("3"), hx.VStr("4"))), step(hx.EAdd("sold", hx.VStr("old")))}
+	zPrefix := []*hx.Step{step(hx.ZAdd("za", hx.VStr("1"), 1)), step(hx.ZAdd("za", hx.VStr("2"), 2)), step(hx.ZAdd("zb", hx.VStr("2"), 5)), step(hx.ZAdd("zold", hx.VStr("old"), 9))}
+	var cases []opCase
+	id := 0
+	add := func(prefix []*hx.Step, w *hx.Op) {
+		id++
+		cases = append(cases, opCase{Hist: &hx.History{ID: 810000 + id}, Prefix: prefix, Target: step(w), Kind: w.Name})
+	}
+	for _, dest := range []string{"snew", "sold"} {
+		for _, alg := range []string{"diff", "inter", "union"} {
+			add(setPrefix, hx.EStore(alg, dest, "sa", "sb"))
+		}
+	}
+	for _, dest := range []string{"znew", "zold"} {
+		add(zPrefix, hx.ZStore(false, "sum", dest, "za", "zb"))
+		add(zPrefix, hx.ZStore(true, "max", dest, "za", "zb"))
+	}
+	dbNo := 0
+	for i, c := range cases {
+		if len(sum.Failures) > 0 {
+			return
+		}
+		before := sum.Cases
+		c08InterleaveCase(dir, &casePool{Ops: map[string][]*hx.Op{}}, 4*i+1, &dbNo, c)
+		if sum.Cases > before {
+			count("store_interleaved_" + c.Kind)
+		}
+	}
 }
 
 // rival finds, among the generated operations of the same name, the one that shares the longest
@@ -374,7 +434,8 @@ func rivalTail(pool *casePool, w *hx.Op) *hx.Op {
 // c08InterleaveCase runs all interleavings of one case; false = the operation has no effect in its pre-state.
 func c08InterleaveCase(dir string, pool *casePool, ci int, dbNoP *int, c opCase) bool {
 	dbNo := *dbNoP
-	defer func() { *dbNoP = dbNo; hx.Plan.Stmt = false }()
+	hx.Plan.Done = true
+	defer func() { *dbNoP = dbNo; hx.Plan.Stmt = false; hx.Plan.Done = false }()
 	{
 		w := c.Target.Ops[0]
 		onFile := ci%4 == 0 || !w.Write // (a read is held while the writer commits: WAL lets it)
@@ -410,7 +471,7 @@ func c08InterleaveCase(dir string, pool *casePool, ci int, dbNoP *int, c opCase)
 		}
 		// the second caller: delete every key, the next write of the history, a later write of the
 		// same kind (two callers doing the same thing), a reader
-		xs := []ilX{{"delete-keys", hx.KDelete("k1", "k2", "k3")}, {"reader", nil}}
+		xs := []ilX{{name: "delete-keys", op: hx.KDelete("k1", "k2", "k3")}, {name: "reader"}}
 		var next, same *hx.Op
 		for _, st := range c.Rest {
 			if !ilEligible(st) {
@@ -424,28 +485,55 @@ func c08InterleaveCase(dir string, pool *casePool, ci int, dbNoP *int, c opCase)
 			}
 		}
 		if next != nil {
-			xs = append(xs, ilX{"next-write", next})
+			xs = append(xs, ilX{name: "next-write", op: next})
 		}
 		if c.Xs != nil {
 			// scripted second callers
 		} else if !w.Write {
 			// a read: the second callers are writers of the key it reads
-			xs = []ilX{{"delete-keys", hx.KDelete("k1", "k2", "k3")}}
+			xs = []ilX{{name: "delete-keys", op: hx.KDelete("k1", "k2", "k3")}}
 			if next != nil {
-				xs = append(xs, ilX{"next-write", next})
+				xs = append(xs, ilX{name: "next-write", op: next})
 			}
 			xs = append(xs, writersOf(pool, w)...)
 		} else if rv := rival(pool, w); rv != nil && rv != same && rv != next {
-			xs = append(xs, ilX{"rival", rv})
+			xs = append(xs, ilX{name: "rival", op: rv})
 		}
 		if c.Xs != nil {
 		} else if rv := rivalTail(pool, w); rv != nil && rv != next {
-			xs = append(xs, ilX{"rival-for-the-destination", rv})
+			xs = append(xs, ilX{name: "rival-for-the-destination", op: rv})
 		}
 		_ = same
+		// a store: a second caller that, in ONE transaction, looks at the destination and then
+		// changes a source (if it saw the destination unwritten, the store comes after its change)
+		if c.Xs == nil && (strings.HasPrefix(w.Name, "EStore") || strings.Contains(w.Name, "Store")) {
+			f := strings.Fields(w.Tok)
+			at := -1
+			for i, t := range f {
+				if t == "[" {
+					at = i
+				}
+			}
+			if at >= 2 && at+1 < len(f) && f[at+1] != "]" {
+				dest, derr := hex.DecodeString(strings.TrimPrefix(f[at-1], "s"))
+				src, serr := hex.DecodeString(strings.TrimPrefix(f[at+1], "s"))
+				if derr == nil && serr == nil {
+					var wr, look *hx.Op
+					if strings.HasPrefix(w.Name, "E") {
+						wr = hx.EAdd(string(src), hx.VStr("added-by-the-observer"))
+						look = hx.EItems(string(dest))
+					} else {
+						wr = hx.ZAdd(string(src), hx.VStr("added-by-the-observer"), 42)
+						look = hx.ZRangeRank(string(dest), 0, -1, false)
+					}
+					xs = append(xs, ilX{name: "observe-destination-then-change-source", op: wr, pre: look})
+					count("stores_with_a_transactional_observer")
+				}
+			}
+		}
 		// a second call of the very same operation (e.g. two SETNX-style calls racing) is always tried
 		if w.Write {
-			xs = append(xs, ilX{"same-call", w})
+			xs = append(xs, ilX{name: "same-call", op: w})
 		}
 		if c.Xs != nil {
 			xs = c.Xs
